@@ -584,7 +584,7 @@ func evalMapIndexValue(node *Identifier, env *Environment) (string, Object) {
 }
 
 func evalBetween(node *BetweenExpression, env *Environment) Object {
-	val := evalBetweenOperand(node.Left, env)
+	val := evalIdentifierOperand(node.Left, env)
 	if isError(val) {
 		return val
 	}
@@ -603,8 +603,13 @@ func evalBetween(node *BetweenExpression, env *Environment) Object {
 		return FALSE
 	}
 
-	if !matchTypes(val.Type(), val, min, max) {
+	if !matchTypes(min.Type(), min, max) {
 		return newError("mismatch type: BETWEEN operands must have the same type")
+	}
+
+	// an attribute of another type than the bounds is simply not between them
+	if val.Type() != min.Type() {
+		return FALSE
 	}
 
 	b := compareRange(val, min, max)
